@@ -309,15 +309,6 @@ func replayOnce(cfg config, hist []string, wantTrace bool) result {
 		if i == len(hist)-1 {
 			out.calls = resp.Calls
 		}
-		if e.F != nil && len(resp.Fired) == 0 {
-			// The enumerated position exists in ascending order (that is how it was probed) but
-			// not in this order variant: an earlier connection of the loop failed first and the
-			// loop stopped. The run is then identical to the unfaulted variant of the event,
-			// which is enumerated as well: drop this history.
-			atomic.AddInt64(&unfired, 1)
-			out.res = xstate.Result{Key: "fault position does not exist in this iteration order", Stop: true}
-			return out
-		}
 		// --- order pinning ---
 		failing := false
 		for _, x := range entries {
@@ -356,6 +347,15 @@ func replayOnce(cfg config, hist []string, wantTrace bool) result {
 					return out
 				}
 			}
+		}
+		if e.F != nil && len(resp.Fired) == 0 {
+			// The enumerated position exists in ascending order (that is how it was probed) but
+			// not in this order variant: an earlier connection of the loop failed first and the
+			// loop stopped. The run is then identical to the unfaulted variant of the event,
+			// which is enumerated as well: drop this history.
+			atomic.AddInt64(&unfired, 1)
+			out.res = xstate.Result{Key: "fault position does not exist in this iteration order", Stop: true}
+			return out
 		}
 		// --- fault bookkeeping ---
 		for _, f := range resp.Fired {
@@ -827,7 +827,7 @@ func main() {
 	if len(flaky) > 0 && r.Violations() == 0 {
 		ev.Fatalf("%d histories gave a verdict that did not reproduce in 5 runs, e.g. %s", len(flaky), flaky[0])
 	}
-	if len(firedKinds) < 6 && !r.TimeUp() {
+	if len(firedKinds) < 6 && !r.TimeUp() && r.Violations() == 0 {
 		ev.Fatalf("vacuous run: only %d distinct (call,kind) faults fired", len(firedKinds))
 	}
 	r.Finish()
